@@ -38,6 +38,8 @@ pub proof fn axiom_udigits<const N: usize>(x: BUint<N>)
 pub assume_specification<const N: usize> [ BUint::<N>::digits ] (a: &BUint<N>) -> (r: &[u64; N])
     ensures r@ == udigits(*a), limbs(r@) == uv(*a);
 
+pub assume_specification [u64::overflowing_sub] (a: u64, b: u64) -> (r: (u64, bool))
+    ensures r.1 == (a < b), r.0 as int == (if a < b { a as int - b as int + 0x1_0000_0000_0000_0000int } else { a as int - b as int });
 pub assume_specification [u64::overflowing_add] (a: u64, b: u64) -> (r: (u64, bool))
     ensures r.0 as nat + (if r.1 { W() } else { 0 }) == a as nat + b as nat;
 
@@ -288,6 +290,15 @@ pub proof fn lemma_limbs_cmp(x: Seq<u64>, n: Seq<u64>, sz: int, k: int)
     let pk = pow_w(k as nat);
     assert(pk * (xs[k] as nat) + pk <= pk * (ns[k] as nat)) by (nonlinear_arith)
         requires xs[k] < ns[k], pk >= 0;
+}
+
+/// changing word 0 only changes the value by the difference of the two words
+pub proof fn lemma_limbs_set0(s: Seq<u64>, t: Seq<u64>)
+    requires s.len() == t.len(), s.len() >= 1, forall|k: int| 1 <= k < s.len() ==> s[k] == t[k]
+    ensures limbs(s) - s[0] == limbs(t) - t[0]
+{
+    reveal(limbs);
+    assert(s.subrange(1, s.len() as int) =~= t.subrange(1, t.len() as int));
 }
 
 /// little-endian words of equal length with the same value are the same words
